@@ -196,9 +196,13 @@ type Walk struct {
 	Target func(ssa.Instruction) bool
 	// EdgeOK: return false to forbid leaving `from` through successor index succ (0 = true edge of an If).
 	EdgeOK func(from *ssa.BasicBlock, succ int) bool
-	// Facts, when set, is consulted for extra facts to add when an If edge is taken.
-	NoEnv bool
+	// TargetEnv is like Target but also sees the boolean facts known on the path.
+	TargetEnv func(ssa.Instruction, Env) bool
+	NoEnv     bool
 }
+
+// EvalBool evaluates a boolean SSA value under path facts.
+func EvalBool(v ssa.Value, env Env) (val, known bool) { return evalBool(v, env) }
 
 type Found struct {
 	Instr ssa.Instruction
@@ -234,6 +238,9 @@ func (w *Walk) From(start Point, env Env) *Found {
 		for i := it.st.p.I; i < len(b.Instrs); i++ {
 			ins := b.Instrs[i]
 			if w.Target != nil && w.Target(ins) {
+				return &Found{ins, it.path}
+			}
+			if w.TargetEnv != nil && w.TargetEnv(ins, it.st.env) {
 				return &Found{ins, it.path}
 			}
 			if w.Stop != nil && w.Stop(ins) {
@@ -673,4 +680,60 @@ func BoolEdges(fn *ssa.Function, v ssa.Value, want bool) []IfEdge {
 // ReachableWithout reports a witness when target is reachable from `from` without using the forbidden edges.
 func ReachableWithout(from Point, forbidden []IfEdge, target func(ssa.Instruction) bool) *Found {
 	return (&Walk{EdgeOK: Forbid(forbidden), Target: target}).From(from, nil)
+}
+
+
+// RetCase is one way a function returns: a Return instruction, and when its operands are Phis of the return block,
+// one incoming edge with the Phi operands resolved for that edge.
+type RetCase struct {
+	Ret    *ssa.Return
+	Pred   *ssa.BasicBlock // nil when the return block has no Phi operands
+	Values []ssa.Value
+}
+
+// Reach returns the instruction whose execution means "this case happens": the Return itself, or the terminator
+// of the predecessor block for an edge case.
+func (rc RetCase) Reach() ssa.Instruction {
+	if rc.Pred == nil {
+		return rc.Ret
+	}
+	return rc.Pred.Instrs[len(rc.Pred.Instrs)-1]
+}
+
+func ReturnCases(fn *ssa.Function) []RetCase {
+	var out []RetCase
+	for _, r := range Returns(fn) {
+		b := r.Block()
+		hasPhi := false
+		for _, v := range r.Results {
+			if p, ok := v.(*ssa.Phi); ok && p.Block() == b {
+				hasPhi = true
+			}
+		}
+		if !hasPhi || len(b.Preds) < 2 {
+			out = append(out, RetCase{Ret: r, Values: r.Results})
+			continue
+		}
+		for k, pred := range b.Preds {
+			vals := make([]ssa.Value, len(r.Results))
+			for i, v := range r.Results {
+				if p, ok := v.(*ssa.Phi); ok && p.Block() == b {
+					vals[i] = p.Edges[k]
+				} else {
+					vals[i] = v
+				}
+			}
+			out = append(out, RetCase{Ret: r, Pred: pred, Values: vals})
+		}
+	}
+	return out
+}
+
+// TermEdges returns the If edges whose (negation-stripped) condition, rendered symbolically, satisfies match; the edge
+// returned is the one on which the condition has truth value `want`.
+func TermEdges(fn *ssa.Function, sx *Symx, match func(s string, t *Term) bool, want bool) []IfEdge {
+	return IfEdgesWhere(fn, func(v ssa.Value) bool {
+		t := sx.Of(v)
+		return match(t.String(), t)
+	}, want)
 }
